@@ -249,7 +249,9 @@ func cmpCase(t *mon.T) {
 			t.Fail("cmptotal-wrong", fd)
 			return
 		}
-	} else if dec.SameRepr(x, y) && ct != 0 {
+	} else if dec.SameRepr(x, y) && x.C.Cmp(y.C) == 0 && x.E == y.E && ct != 0 {
+		// NaNs: only fully identical ones (payload and leftover exponent field
+		// included) are held to compare equal; otherwise the order axioms decide
 		t.Fail("cmptotal-wrong", fd)
 		return
 	}
@@ -372,6 +374,63 @@ func digitSweepCase(t *mon.T, d int64) {
 	t.Nontrivial(fmt.Sprintf("ds|%d|%v", d, x.Neg))
 }
 
+// twinPoolCase: a pool of coefficients that agree in length, in their most
+// significant and in their least significant 64 bits but differ in between
+// and lie on both sides of a power of ten (10^k, 10^k - 10^j, 10^k + 10^j,
+// 10^k - 2^m ...), each under several exponents. Every ordered pair is
+// compared, in shuffled order and repeatedly, against the exact comparison:
+// anything remembered from one call (a digit count, a scaled coefficient)
+// under a key that does not identify the value shows up as a wrong answer for
+// the next value with the same key.
+func twinPoolCase(t *mon.T) {
+	r := t.Rng
+	k := int64(70 + r.Intn(400))
+	base := dec.Pow10(k)
+	var coeffs []*big.Int
+	coeffs = append(coeffs, new(big.Int).Set(base))
+	for i := 0; i < 4; i++ {
+		j := int64(64 + r.Intn(int(k-64)))
+		d := new(big.Int).Set(dec.Pow10(j))
+		if r.Bool() {
+			d = new(big.Int).Lsh(big.NewInt(r.Range(1, 999)), uint(64+r.Intn(int(k)*3-64)))
+			if d.Cmp(base) >= 0 {
+				d = new(big.Int).Set(dec.Pow10(j))
+			}
+		}
+		if r.Bool() {
+			coeffs = append(coeffs, new(big.Int).Sub(base, d))
+		} else {
+			coeffs = append(coeffs, new(big.Int).Add(base, d))
+		}
+	}
+	neg := r.Bool()
+	var pool []dec.D
+	for _, c := range coeffs {
+		e := r.Range(-20, 20)
+		pool = append(pool, dec.D{Form: dec.Finite, Neg: neg, C: c, E: e})
+		// the same magnitude reached with another exponent, and its neighbour
+		pool = append(pool, dec.D{Form: dec.Finite, Neg: neg, C: new(big.Int).Sub(dec.Pow10(k-1), bOne), E: e + 1 + int64(r.Intn(2))})
+	}
+	pool = append(pool, dec.FromInt(1, 0), dec.D{Form: dec.Finite, Neg: neg, C: new(big.Int).Set(base), E: -5})
+	ap := make([]*apd.Decimal, len(pool))
+	for i := range pool {
+		ap[i] = br.ToApd(pool[i])
+	}
+	for pass := 0; pass < 3; pass++ {
+		for n := 0; n < len(pool)*len(pool); n++ {
+			i, j := r.Intn(len(pool)), r.Intn(len(pool))
+			got, gotT := ap[i].Cmp(ap[j]), ap[i].CmpTotal(ap[j])
+			t.EvalN(2)
+			if want, wantT := dec.Cmp(pool[i], pool[j]), refCmpTotal(pool[i], pool[j]); got != want || gotT != wantT {
+				t.Fail("cmp-wrong", map[string]interface{}{"kind": "twin-pool", "x": pool[i].String(), "y": pool[j].String(), "cmp": got, "cmptotal": gotT, "want": want, "want_total": wantT, "pass": pass})
+				return
+			}
+		}
+	}
+	t.Count("pair/twin-pool")
+	t.Nontrivial(fmt.Sprintf("tp|%d|%s", k, coeffs[1]))
+}
+
 // coincidenceGapCase: operands whose exponents differ by a k at which 10^k is
 // within 5e-4 of a power of two (gen.CoincidenceExps), with coefficients just
 // below powers of two and ten: the places where a comparison that is decided
@@ -385,14 +444,30 @@ func coincidenceGapCase(t *mon.T, k int64) {
 	y := dec.D{Form: dec.Finite, Neg: neg, C: c, E: k}
 	scaled := new(big.Int).Mul(c, dec.Pow10(k))
 	ay := br.ToApd(y)
-	for _, delta := range []int64{0, -1, 1} {
-		x := dec.D{Form: dec.Finite, Neg: neg, C: new(big.Int).Add(scaled, big.NewInt(delta)), E: 0}
+	deltas := []*big.Int{new(big.Int), big.NewInt(-1), big.NewInt(1)}
+	// ... and differences confined to a single bit or decimal digit somewhere
+	// inside the low k digits (not only at the very end)
+	for n := 0; n < 3; n++ {
+		b := new(big.Int).Lsh(bOne, uint(r.Intn(int(float64(k)*3.32))))
+		if r.Bool() {
+			b = new(big.Int).Set(dec.Pow10(int64(r.Intn(int(k)))))
+		}
+		if r.Bool() {
+			b.Neg(b)
+		}
+		deltas = append(deltas, b)
+	}
+	for _, delta := range deltas {
+		x := dec.D{Form: dec.Finite, Neg: neg, C: new(big.Int).Add(scaled, delta), E: 0}
+		if x.C.Sign() <= 0 {
+			continue
+		}
 		ax := br.ToApd(x)
 		want, wantT := dec.Cmp(x, y), refCmpTotal(x, y)
 		got, rev, ct := ax.Cmp(ay), ay.Cmp(ax), ax.CmpTotal(ay)
 		t.EvalN(3)
 		if got != want || rev != -want || ct != wantT {
-			t.Fail("cmp-wrong", map[string]interface{}{"kind": "coincidence-gap", "gap": k, "y": y.String(), "x_is_y_scaled_plus": delta, "cmp": got, "reverse": rev, "cmptotal": ct, "want": want, "want_total": wantT})
+			t.Fail("cmp-wrong", map[string]interface{}{"kind": "coincidence-gap", "gap": k, "y": y.String(), "x_is_y_scaled_plus": delta.String(), "cmp": got, "reverse": rev, "cmptotal": ct, "want": want, "want_total": wantT})
 			return
 		}
 	}
@@ -418,6 +493,9 @@ func runC15(r *mon.Run) {
 	if r.Quick() {
 		r.Parallel("digit-sweep-sampled", 160, func(t *mon.T) { digitSweepCase(t, t.Rng.Range(3001, 120000)) })
 	}
+	r.Parallel("twin-pools", r.N(600, 60000), twinPoolCase)
+	// the same single-bit and single-digit differences at ordinary gaps of 129..2000 places
+	r.Parallel("gap-perturbations", r.N(3000, 300000), func(t *mon.T) { coincidenceGapCase(t, t.Rng.Range(129, 2000)) })
 	coin := gen.CoincidenceExps(129, 200200, 5e-4)
 	r.Parallel("coincidence-gaps", int64(len(coin))*r.N(2, 8), func(t *mon.T) { coincidenceGapCase(t, coin[t.Index%int64(len(coin))]) })
 	r.Parallel("coincidence-digit-counts", int64(len(coin))*5, func(t *mon.T) {
